@@ -548,4 +548,11 @@ Section Roundtrip.
     cbn [bind] in H.
     rewrite (store_marker_other prefix body p1 patch k' NM H). apply (ensure_all_other _ _ _ _ k' NI E).
   Qed.
+
+  (* ... and so does a touch: with ANY pending patch, what is pending for other annotations stays exactly as it is *)
+  Theorem ann_touch_keeps_pending prefix v1 verbose tk body p v patch k' :
+    ptouch dg (PAnn prefix v1 verbose tk) body p v = Ok patch ->
+    ~ In k' (full_keys dg prefix v1 body tk) -> k' <> (prefix ++ "/" ++ marker_name)%string ->
+    resolve patch (ann_path k') = resolve p (ann_path k').
+  Proof. cbn [ptouch]. intros H NI NM. exact (touch_keys_other _ _ _ _ _ _ k' NI NM H). Qed.
 End Roundtrip.
